@@ -276,8 +276,8 @@ func (conn *ConnectionSet) ReplaceNamedPortWithMatchingPortNum(protocol v1.Proto
 	if portNum != NoPort {
 		protocolPortSet.AddPort(intstr.FromInt32(portNum))
 	}
-	// after adding the portNum to the protocol's portSet; remove the port name
-	protocolPortSet.RemovePort(intstr.FromString(namedPort))
+	// after adding the portNum to the protocol's portSet; drop the port name (a converted name is not a denied one)
+	delete(protocolPortSet.NamedPorts, namedPort)
 }
 
 // portRange implements the PortRange interface
